@@ -532,12 +532,12 @@ Section ULaid.
       pose proof (chain_le W _ _ _ C3) as L3. pose proof (chain_le W _ _ _ C4) as L4.
       cbn [tr_stat].
       pose proof (IH1 ltac:(assumption) None flv g _ _ C1) as P1. destruct (tr_exp e1 None flv g) as [a1 g1].
-      pose proof (IH3 ltac:(assumption) None flv g1 _ _ C3) as P3. destruct (tr_exp e3 None flv g1) as [a3 g2].
-      pose proof (IH2 ltac:(assumption) None flv g2 _ _ C2) as P2. destruct (tr_exp e2 None flv g2) as [a2 g3].
+      pose proof (IH2 ltac:(assumption) None flv g1 _ _ C2) as P2. destruct (tr_exp e2 None flv g1) as [a2 g2].
+      pose proof (IH3 ltac:(assumption) None flv g2 _ _ C3) as P3. destruct (tr_exp e3 None flv g2) as [a3 g3].
       pose proof (IHb ltac:(assumption) flv (slv + 1)%N g3 _ _ C4) as P4. destruct (tr_block bk flv (slv + 1)%N g3) as [a4 g4].
       cbn [fst] in *.
       assert (L13 : c1 <= c3) by lia.
-      pose proof (PieceEA_app _ _ (hi W vl) c1 c3 L1 L13 P1 (PieceEA_swap _ _ c1 c2 c3 L2 L3 P3 P2)) as P132.
+      pose proof (PieceEA_app _ _ (hi W vl) c1 c3 L1 L13 P1 (PieceEA_app _ _ c1 c2 c3 L2 L3 P2 P3)) as P132.
       assert (Hb : Born W c3 c3 (to_v (param_var n vl))).
       { unfold to_v, param_var. cbn [v_name v_loc v_refer v_empty]. apply (LL.Born_of_InReg W); [exact Hid|lia|exact I]. }
       pose proof (PieceSA_app _ _ (hi W vl) c3 c3 ltac:(lia) (Z.le_refl c3) (PieceSA_of_E _ _ _ P132) (PieceSA_add _ c3 c3 Hb)) as P5.
